@@ -523,6 +523,21 @@ def many(a0: uint256, a1: uint256, a2: uint256, a3: uint256, a4: uint256, a5: ui
 """
 
 
+CORPUS["bigframe_ctor"] = """
+A: public(immutable(uint256))
+B: public(immutable(Bytes[40]))
+s: public(uint256)
+@deploy
+def __init__(a: uint256, b: Bytes[40]):
+    buf: uint256[1000] = empty(uint256[1000])
+    for i: uint256 in range(1000):
+        buf[i] = i + a
+    A = a
+    B = b
+    self.s = buf[999]
+"""
+
+
 def example_sources(repo: Path):
     out = {}
     for p in sorted((repo / "examples").rglob("*.vy")):
@@ -712,3 +727,74 @@ def source_map_indices(asm, smap):
             ij.append(k)
     ka = [pc for pc, node in smap.get("pc_raw_ast_map", {}).items() if not (pc == 0 and type(node).__name__ == "Module")]
     return ia, sorted(ka), ie, sorted(smap.get("error_map", {})), ij, sorted(smap.get("pc_jump_map", {}))
+
+
+# ---------------------------------------------------------------- deploy stub operands vs real layout
+
+def stub_operands(asm, symbol_map, const_map):
+    """Concrete evaluation of the last basic block of the code part (the deploy epilogue) on a tiny stack
+    machine: returns dict(codecopy=(dst, src, len) of the last CODECOPY whose source is the label
+    runtime_begin, ret=(ofst, len) of the final RETURN); None entries where a value is not a compile-time
+    constant.  Independent of vyper except for the pops/pushes arity of opcodes."""
+    from vyper.evm.opcodes import OPCODES
+    I = _imports()
+    sym = {k.label: v for k, v in symbol_map.items()}
+    cst = {k.label: v for k, v in const_map.items()}
+    end = next((i for i, x in enumerate(asm) if isinstance(x, (I.DataHeader, I.DATA_ITEM))), len(asm))
+    rets = [i for i in range(end) if isinstance(asm[i], str) and asm[i] == "RETURN"]
+    if not rets:
+        return None
+    last = rets[-1]
+    start = last
+    while start > 0:
+        x = asm[start - 1]
+        if isinstance(x, I.Label) or (isinstance(x, str) and x in ("JUMPDEST", "JUMP", "JUMPI", "STOP", "REVERT", "RETURN", "INVALID")):
+            break
+        start -= 1
+    stack, out = [], {"codecopy": None, "ret": None}
+
+    def pop():
+        return stack.pop() if stack else None
+
+    i = start
+    rb = sym.get("runtime_begin")
+    while i <= last:
+        x = asm[i]
+        if isinstance(x, I.CONST):
+            i += 1
+            continue
+        if isinstance(x, I.PUSHLABEL):
+            stack.append(sym.get(x.label.label))
+        elif isinstance(x, I.PUSH_OFST):
+            base = sym.get(x.label.label) if isinstance(x.label, I.Label) else cst.get(x.label.label)
+            stack.append(None if base is None else base + x.ofst)
+        elif isinstance(x, str) and x.startswith("PUSH"):
+            n = int(x[4:])
+            stack.append(int.from_bytes(bytes(asm[i + 1:i + 1 + n]), "big"))
+            i += n
+        elif isinstance(x, str) and x.startswith("DUP"):
+            n = int(x[3:])
+            stack.append(stack[-n] if len(stack) >= n else None)
+        elif isinstance(x, str) and x.startswith("SWAP"):
+            n = int(x[4:])
+            while len(stack) < n + 1:
+                stack.insert(0, None)
+            stack[-1], stack[-n - 1] = stack[-n - 1], stack[-1]
+        elif x == "ADD":
+            a, b = pop(), pop()
+            stack.append(None if a is None or b is None else (a + b) % 2**256)
+        elif x == "CODECOPY":
+            dst, src, ln = pop(), pop(), pop()
+            if src is not None and src == rb:
+                out["codecopy"] = (dst, src, ln)
+        elif x == "RETURN":
+            out["ret"] = (pop(), pop())
+        elif isinstance(x, str) and x in OPCODES:
+            _, pops, pushes, _ = OPCODES[x]
+            for _ in range(pops):
+                pop()
+            stack.extend([None] * pushes)
+        else:
+            return None
+        i += 1
+    return out
